@@ -6,6 +6,7 @@ import (
 	"go/constant"
 	"go/token"
 	"go/types"
+	"golang.org/x/tools/go/packages"
 	"regexp"
 	"sort"
 	"strconv"
@@ -71,29 +72,26 @@ func C14types(p *load.Program, run *report.Run) {
 		run.Undecided("type-spelling-roundtrip", "types.Parse", "", "function not found")
 		return
 	}
-	parsed := map[string]string{}
-	ast.Inspect(fd.Body, func(n ast.Node) bool {
-		sw, ok := n.(*ast.SwitchStmt)
-		if !ok || sw.Tag == nil || types.ExprString(sw.Tag) != "m[1]" {
-			return true
-		}
-		for _, st := range sw.Body.List {
-			cc := st.(*ast.CaseClause)
-			tconst := ""
-			for _, b := range cc.Body {
-				if as, ok := b.(*ast.AssignStmt); ok && isSel(as.Lhs[0], "Type") {
-					tconst = types.ExprString(as.Rhs[0])
-				}
-			}
-			for _, e := range cc.List {
-				if bl, ok := e.(*ast.BasicLit); ok && bl.Kind == token.STRING {
-					k, _ := strconv.Unquote(bl.Value)
-					parsed[k] = tconst
-				}
+	parsed := readerNameTable(pkg, fd)
+	// the sized branch yields scalar kinds only: an array, slice or pointer Info needs an ElementType, which
+	// only the bracket and star forms fill in
+	run.Rule("sized-names-are-scalars", "no name that types.Parse accepts in front of a size maps to TArray, TSlice or TPtr: those kinds carry an ElementType that the sized branch leaves nil, and the circuit parser dereferences it")
+	{
+		var bad []string
+		for name, ty := range parsed {
+			if ty == "TArray" || ty == "TSlice" || ty == "TPtr" {
+				bad = append(bad, fmt.Sprintf("%q -> %s", name, ty))
 			}
 		}
-		return false
-	})
+		sort.Strings(bad)
+		run.Count("reader-type-names", len(parsed))
+		if len(bad) > 0 {
+			run.Violate("sized-names-are-scalars", "types.Parse/sized names", p.Rel(fd.Pos()), "the sized branch accepts "+strings.Join(bad, ", ")+": the returned Info has a nil ElementType", nil)
+		} else {
+			run.OK("sized-names-are-scalars", "types.Parse/sized names", p.Rel(fd.Pos()), fmt.Sprintf("%d names, all scalar kinds", len(parsed)))
+		}
+		run.Floor("reader-type-names", 5)
+	}
 	// regexps of the parser
 	res := map[string]*regexp.Regexp{}
 	for _, f := range pkg.Syntax {
@@ -179,4 +177,138 @@ func C14types(p *load.Program, run *report.Run) {
 	}
 	run.Floor("signature-types", 7)
 	run.Floor("type-names", 8)
+}
+
+// readerNameTable extracts the names types.Parse accepts in front of a size and the type constant each
+// yields.  Two shapes: a switch over the matched name with string cases that assign the type, or lookups
+// of the matched name in package-level map[string]Type literals (tried in source order, the first hit
+// wins), optionally filtered by a switch over the looked-up type whose accepting arms assign it.
+func readerNameTable(pkg *packages.Package, fd *ast.FuncDecl) map[string]string {
+	info := pkg.TypesInfo
+	out := map[string]string{}
+	// shape 1
+	ast.Inspect(fd.Body, func(n ast.Node) bool {
+		sw, ok := n.(*ast.SwitchStmt)
+		if !ok || sw.Tag == nil {
+			return true
+		}
+		for _, st := range sw.Body.List {
+			cc := st.(*ast.CaseClause)
+			ty := ""
+			for _, b := range cc.Body {
+				if as, ok := b.(*ast.AssignStmt); ok && len(as.Lhs) == 1 && len(as.Rhs) == 1 && strings.HasSuffix(types.ExprString(as.Lhs[0]), ".Type") {
+					ty = types.ExprString(as.Rhs[0])
+				}
+			}
+			if ty == "" {
+				continue
+			}
+			for _, e := range cc.List {
+				if tv, ok := info.Types[e]; ok && tv.Value != nil && tv.Value.Kind() == constant.String {
+					out[constant.StringVal(tv.Value)] = ty
+				}
+			}
+		}
+		return true
+	})
+	if len(out) > 0 {
+		return out
+	}
+	// shape 2: package-level tables
+	tables := map[string]map[string]string{}
+	for _, f := range pkg.Syntax {
+		for _, d := range f.Decls {
+			gd, ok := d.(*ast.GenDecl)
+			if !ok || gd.Tok != token.VAR {
+				continue
+			}
+			for _, sp := range gd.Specs {
+				vs := sp.(*ast.ValueSpec)
+				for i, nm := range vs.Names {
+					if i >= len(vs.Values) {
+						continue
+					}
+					cl, ok := vs.Values[i].(*ast.CompositeLit)
+					if !ok {
+						continue
+					}
+					if _, isMap := info.TypeOf(cl).Underlying().(*types.Map); !isMap {
+						continue
+					}
+					t := map[string]string{}
+					for _, el := range cl.Elts {
+						kv, ok := el.(*ast.KeyValueExpr)
+						if !ok {
+							continue
+						}
+						if tv, ok := info.Types[kv.Key]; ok && tv.Value != nil && tv.Value.Kind() == constant.String {
+							t[constant.StringVal(tv.Value)] = types.ExprString(kv.Value)
+						}
+					}
+					if len(t) > 0 {
+						tables[nm.Name] = t
+					}
+				}
+			}
+		}
+	}
+	var order []string
+	lookupVar := ""
+	ast.Inspect(fd.Body, func(n ast.Node) bool {
+		as, ok := n.(*ast.AssignStmt)
+		if !ok || len(as.Rhs) != 1 || len(as.Lhs) == 0 {
+			return true
+		}
+		ix, ok := ast.Unparen(as.Rhs[0]).(*ast.IndexExpr)
+		if !ok {
+			return true
+		}
+		id, ok := ix.X.(*ast.Ident)
+		if !ok || tables[id.Name] == nil {
+			return true
+		}
+		if _, isIdx := ast.Unparen(ix.Index).(*ast.IndexExpr); !isIdx {
+			return true // the key is the matched name m[1]
+		}
+		order = append(order, id.Name)
+		lookupVar = types.ExprString(as.Lhs[0])
+		return true
+	})
+	if len(order) == 0 {
+		return out
+	}
+	// the filter
+	var accepted map[string]bool
+	ast.Inspect(fd.Body, func(n ast.Node) bool {
+		sw, ok := n.(*ast.SwitchStmt)
+		if !ok || sw.Tag == nil || types.ExprString(sw.Tag) != lookupVar {
+			return true
+		}
+		accepted = map[string]bool{}
+		for _, st := range sw.Body.List {
+			cc := st.(*ast.CaseClause)
+			assigns := false
+			for _, b := range cc.Body {
+				if as, ok := b.(*ast.AssignStmt); ok && len(as.Lhs) == 1 && len(as.Rhs) == 1 && strings.HasSuffix(types.ExprString(as.Lhs[0]), ".Type") && types.ExprString(as.Rhs[0]) == lookupVar {
+					assigns = true
+				}
+			}
+			if assigns {
+				for _, e := range cc.List {
+					accepted[types.ExprString(e)] = true
+				}
+			}
+		}
+		return false
+	})
+	for i := len(order) - 1; i >= 0; i-- {
+		for name, ty := range tables[order[i]] {
+			if accepted == nil || accepted[ty] {
+				out[name] = ty
+			} else {
+				delete(out, name)
+			}
+		}
+	}
+	return out
 }
